@@ -19,8 +19,16 @@ for sid in ids:
     shutil.rmtree(d, ignore_errors=True)
     subprocess.check_call(['git', 'clone', '-q', '/repo', d])
     try:
-        r = subprocess.run(['git', '-C', d, 'apply', os.path.join(dst, 'patch.diff')], capture_output=True, text=True)
-        if r.returncode != 0:
+        # a later fix: commit may have rewritten the site; the change was seeded against an earlier HEAD
+        revs = subprocess.run(['git', '-C', d, 'rev-list', '-n', '60', 'HEAD'], capture_output=True, text=True).stdout.split()
+        at = None
+        for rev in revs:
+            subprocess.check_call(['git', '-C', d, 'checkout', '-q', rev])
+            r = subprocess.run(['git', '-C', d, 'apply', os.path.join(dst, 'patch.diff')], capture_output=True, text=True)
+            if r.returncode == 0:
+                at = rev[:7]
+                break
+        if at is None:
             res = {'repo_head': head, 'applies': False, 'note': r.stderr.strip()[-300:]}
         else:
             line = ''
@@ -30,7 +38,7 @@ for sid in ids:
                 line = p.stdout.strip().splitlines()[0] if p.stdout.strip() else ''
                 if p.returncode == 0:
                     break
-            res = {'repo_head': head, 'applies': True, 'passes': p.returncode == 0, 'line': line, 'attempts': attempt,
+            res = {'repo_head': head, 'applied_at': at, 'applies_to_head': at == head[:7], 'applies': True, 'passes': p.returncode == 0, 'line': line, 'attempts': attempt,
                    'not_passing': [l.strip() for l in p.stdout.splitlines()[1:6]]}
         meta['suite_confirmed'] = res
         json.dump(meta, open(mp, 'w'), indent=1)
